@@ -58,7 +58,7 @@ var c13AbsSecTable = []int64{0, 1, -1, c13UnixToInternal, c13UnixToInternal - 1,
 	c13UnixToInternal + (1 << 31), c13UnixToInternal + (1 << 31) - 1, c13UnixToInternal + 253402300799, c13UnixToInternal + 253402300800,
 	c13UnixToInternal + 1700000000, c13UnixToInternal - 2208988800, 1 << 56, -(1 << 56), 0x0102030405060708, c13UnixToInternal + (1 << 33), 59453308800 /* 1885, the wall-clock epoch */}
 var c13NsecTable = []int64{0, 1, 999999999, 500000000, 123456789, 1000, 999999000, 0x01020304 % 1000000000}
-var c13ZoneTable = []string{"u", "l", "z0", "z3600", "z-3600", "z19800", "z20700", "z-12600", "z1", "z-1", "z59", "z-59", "z50400", "z-43200", "z86399", "z-86399", "z12345", "n0", "n1", "n2", "n3", "n4"}
+var c13ZoneTable = []string{"u", "l", "z0", "z3600", "z-3600", "z19800", "z20700", "z-12600", "z1", "z-1", "z59", "z-59", "z50400", "z-43200", "z86399", "z-86399", "z12345", "z-60", "z-119", "z60", "z1966080", "z-1966140", "n0", "n1", "n2", "n3", "n4"}
 
 func (g *c13Gen) i32() int64 {
 	if g.r.chance(50) {
